@@ -1031,7 +1031,7 @@ class DedupAcc(Acc):
         self.jobs = ctx.jobs
         self.seed = ctx.seed
 
-    def pmap(self, fn, shards, merge=True, chunksize=1):
+    def pmap(self, fn, shards, merge=True, chunksize=1, each=None):
         """Worker tasks are run in batches; inside a batch the (heavily overlapping) digest sets are united before they
         travel back, which keeps the parent process from becoming the bottleneck."""
         global _BATCH_FN
@@ -1040,6 +1040,9 @@ class DedupAcc(Acc):
         batches = [shards[i:i + size] for i in range(0, len(shards), size)]
         _BATCH_FN = fn
         out = []
+        if each is not None:
+            self._ctx.pmap(_run_batch, batches, merge=False, chunksize=1, each=lambda accs: [each(a) for a in accs])
+            return out
         for accs in self._ctx.pmap(_run_batch, batches, merge=False, chunksize=1):
             out.extend(accs)
         return out
